@@ -747,3 +747,112 @@ Proof.
     intros [|[|k]] p Hk Hp; [contradiction| |destruct k; discriminate].
     cbn in Hp. inv Hp. split; vm_compute; reflexivity.
 Qed.
+
+(* ================= build level: layering -> renames -> FixBackReferences ================= *)
+
+From KV Require Import Res.BuildProofs.
+
+(* a leaf of the layering: a fresh well formed document; the directives on its way are comma free *)
+Definition leaf_ok (p : resource * list rename_step) : Prop :=
+  wf_res (fst p) /\ ptriples (fst p) = [] /\ forallb step_ok (snd p) = true.
+
+Definition gen_build_names (cs : string -> string -> bool) (nonstr : string -> bool) :=
+  build_names cs nonstr gen_name_prefix_fs gen_name_suffix_fs gen_namespace_fs gen_prefix_skip gen_suffix_skip.
+
+Lemma came_from_produced cs nonstr prov m :
+  Forall2 (came_from cs nonstr gen_name_prefix_fs gen_name_suffix_fs gen_namespace_fs gen_prefix_skip gen_suffix_skip) prov m ->
+  Forall leaf_ok prov -> Forall2 (produced cs nonstr) prov m.
+Proof.
+  induction 1 as [|p r prov m' Hp Hm IH]; intros Hok; [constructor|].
+  pose proof (Forall_inv Hok) as (W & F & S). constructor; [|apply IH; eapply Forall_inv_tail; eauto].
+  split; [exact W|]. split; [exact F|]. split; [exact S|exact Hp].
+Qed.
+
+Lemma build_produced cs nonstr l hs m :
+  gen_build_names cs nonstr l hs = Ok m -> Forall leaf_ok (build_prov l hs) ->
+  Forall2 (produced cs nonstr) (build_prov l hs) m.
+Proof.
+  intros H Hok. apply came_from_produced; [|assumption].
+  exact (build_names_prov _ _ _ _ _ _ _ _ _ _ H).
+Qed.
+
+Lemma build_refs_split cs nonstr l hs out :
+  build_refs cs nonstr gen_name_prefix_fs gen_name_suffix_fs gen_namespace_fs gen_prefix_skip gen_suffix_skip
+             gen_gvk_order_first gen_gvk_order_last gen_nameref_raw l hs = Ok out ->
+  exists m rules, gen_build_names cs nonstr l hs = Ok m /\
+                  effective_rules gen_gvk_order_first gen_gvk_order_last gen_nameref_raw = Ok rules /\
+                  nameref_transform cs nonstr rules m = Ok out.
+Proof.
+  unfold build_refs, gen_build_names. intros H.
+  destruct (build_names _ _ _ _ _ _ _ l hs) as [m| | |]; cbn [bind] in H; try discriminate.
+  destruct (effective_rules _ _ _) as [rules| | |]; cbn [bind] in H; try discriminate. eauto.
+Qed.
+
+(* The build-level statement, proved part: layering -> renames -> hash -> FixBackReferences. *)
+Lemma refs_follow_build cs nonstr l hs m rules out C :
+  gen_build_names cs nonstr l hs = Ok m ->
+  effective_rules gen_gvk_order_first gen_gvk_order_last gen_nameref_raw = Ok rules ->
+  nameref_transform cs nonstr rules m = Ok out ->
+  Forall leaf_ok (build_prov l hs) -> mapM (view cs) m = Ok C -> no_empty_prev C = true ->
+  forall i r r' org row fs flags cands j pb b a t s,
+    nth_error m i = Some r -> nth_error out i = Some r' -> org_id cs r = Ok org ->
+    In row rules -> In fs (nb_referrers row) -> gvk_is_selected (id_gvk org) (fs_gvk fs) = true ->
+    has_suffix "roleRef/name" (fs_path fs) = false ->
+    referencable cs m r = Ok flags -> mapM (view cs) (select_by flags m) = Ok cands ->
+    no_ns_key a -> reaches (path_splitter (fs_path fs)) a (r_node r) = true ->
+    get_addr a (r_node r) = Some (Scalar t s (get_name (r_node (fst pb)))) ->
+    is_null (Scalar t s (get_name (r_node (fst pb)))) = false ->
+    nth_error (build_prov l hs) j = Some pb -> nth_error C j = Some b -> nth_error flags j = Some true ->
+    name_kind_match (make_ctx cs r (fs_path fs) (nb_gvk row)) (get_name (r_node (fst pb))) b = true ->
+    namespace_sieve (make_ctx cs r (fs_path fs) (nb_gvk row)) b = true ->
+    (forall k p, k <> j -> nth_error (build_prov l hs) k = Some p ->
+                 may_have_been p (get_name (r_node (fst pb))) = false /\ may_have_been p (c_name b) = false) ->
+    exists t' s', get_addr a (r_node r') = Some (Scalar t' s' (c_name b)).
+Proof.
+  intros Hm Hrules Hrun Hleaves HC Hne i r r' org row fs flags cands j pb b a t s.
+  intros Hr Hr' Horg Hrow Hfs Hsel Hnr Hflags Hcands Hns Hreach Hg Hnn Hpb Hb Hflag Hmatch Hvis Hothers.
+  pose proof (build_produced cs nonstr l hs m Hm Hleaves) as Hprov.
+  destruct (layering_closed cs nonstr _ _ _ Hprov HC j pb b Hb Hothers) as [Hc1 Hc2].
+  pose proof (layering_unique cs nonstr _ _ _ Hprov HC j pb b Hb Hothers flags cands _ Hcands Hflag Hmatch) as Hu.
+  eapply (gen_refs_follow_transform cs nonstr rules m out C Hrules HC Hne Hrun); eauto.
+Qed.
+
+(* non-vacuity of the build-level theorem: one kustomization, namePrefix p-, a ConfigMap and a Pod mounting it *)
+Definition ex_layer : layer :=
+  Layer "" "p-" "" [IRes (fresh (doc "v1" "ConfigMap" "cm" []));
+                    IRes (fresh (doc "v1" "Pod" "pod" [("spec", Map [("volumes", Seq [Map [("configMap", Map [("name", sc "cm")])]])])]))].
+Definition ex_hs : list string := [""; ""].
+Definition ex_m : list resource := unres (gen_build_names no_cs no_nonstr ex_layer ex_hs).
+Definition ex_out : list resource := unres (nameref_transform no_cs no_nonstr gen_rules ex_m).
+Definition ex_C : list cand := unres (mapM (view no_cs) ex_m).
+Definition ex_r : resource := nth 1 ex_m (fresh (sc "")).
+Definition ex_fl : list bool := match referencable no_cs ex_m ex_r with Ok f => f | _ => [] end.
+
+Example refs_follow_build_nonvacuous :
+  gen_build_names no_cs no_nonstr ex_layer ex_hs = Ok ex_m /\
+  nameref_transform no_cs no_nonstr gen_rules ex_m = Ok ex_out /\
+  Forall leaf_ok (build_prov ex_layer ex_hs) /\
+  mapM (view no_cs) ex_m = Ok ex_C /\ no_empty_prev ex_C = true /\
+  referencable no_cs ex_m ex_r = Ok ex_fl /\ nth_error ex_fl 0 = Some true /\
+  reaches (path_splitter (fs_path ex_pod_fs)) ex_pod_addr (r_node ex_r) = true /\
+  get_addr ex_pod_addr (r_node ex_r) = Some (Scalar TStr SPlain "cm") /\
+  (exists pb b, nth_error (build_prov ex_layer ex_hs) 0 = Some pb /\ get_name (r_node (fst pb)) = "cm" /\
+                nth_error ex_C 0 = Some b /\ c_name b = "p-cm" /\
+                name_kind_match (make_ctx no_cs ex_r (fs_path ex_pod_fs) (nb_gvk ex_cm_row)) "cm" b = true /\
+                namespace_sieve (make_ctx no_cs ex_r (fs_path ex_pod_fs) (nb_gvk ex_cm_row)) b = true /\
+                forall k p, k <> 0 -> nth_error (build_prov ex_layer ex_hs) k = Some p ->
+                            may_have_been p "cm" = false /\ may_have_been p (c_name b) = false) /\
+  option_map (fun r => get_addr ex_pod_addr (r_node r)) (nth_error ex_out 1) = Some (Some (Scalar TNone SPlain "p-cm")).
+Proof.
+  split; [vm_compute; reflexivity|]. split; [vm_compute; reflexivity|].
+  split; [repeat constructor; cbn [fst snd]; try (apply wf_fresh_doc; reflexivity); reflexivity|].
+  split; [vm_compute; reflexivity|]. split; [vm_compute; reflexivity|].
+  split; [vm_compute; reflexivity|]. split; [vm_compute; reflexivity|].
+  split; [vm_compute; reflexivity|]. split; [vm_compute; reflexivity|].
+  split; [|vm_compute; reflexivity].
+  exists (nth 0 (build_prov ex_layer ex_hs) (fresh (sc ""), [])), (nth 0 ex_C ex_cand0).
+  split; [vm_compute; reflexivity|]. split; [vm_compute; reflexivity|]. split; [vm_compute; reflexivity|].
+  split; [vm_compute; reflexivity|]. split; [vm_compute; reflexivity|]. split; [vm_compute; reflexivity|].
+  intros [|[|k]] p Hk Hp; [contradiction| |destruct k; discriminate].
+  vm_compute in Hp. inv Hp. split; vm_compute; reflexivity.
+Qed.
